@@ -116,7 +116,12 @@ def write_decode_module(work, tier, fam, shape, lengths, valid_lengths):
                 desc = dict(desc, twin_of=oid)
                 conds.append(Cond(path, fn, oid + '/twin', desc, twin=True))
             else:
-                conds.append(Cond(path, fn, oid, desc))
+                c = Cond(path, fn, oid, desc)
+                # concrete inputs that walk the decoder's error paths with the real message formatting (see chrun.stub_validation)
+                pats = [[0] * L, [0xFF] * L, [0x7F] * L, [(1 if i % 4 == 0 else 0) for i in range(L)], [(0xFF if i % 4 == 3 else 0) for i in range(L)],
+                        [0, 0, 1, 0] * (L // 4) + [0] * (L % 4), [(i * 37 + 11) % 256 for i in range(L)]]
+                c.stub_samples = [p + [be] for p in pats for be in (False, True)] if L else []
+                conds.append(c)
     # array counters: bounded whatever the rest of the input is (the 65536 guard of container_len._decode)
     k = 0
     sizer_fields = W.sizer_names(W.strip(shape))
@@ -131,9 +136,13 @@ def write_decode_module(work, tier, fam, shape, lengths, valid_lengths):
         fn = 'guard__%d' % k
         body.append('def %s(%s, be: bool) -> bool:\n    """\n    pre: %s\n    post: _\n    """\n    return H.check_count_guard(CLS, %d, [%s], be)\n\n'
                     % (fn, ', '.join('%s: int' % n for n in names), ' and '.join('0 <= %s < 256' % n for n in names), k, ', '.join(names)))
-        conds.append(Cond(path, fn, '%s/count-guard/%d' % (shape.name, k),
-                          dict(shape=shape.name, check='array counter bounded', counter=k, symbolic='the %d counter bytes + byte order' % width),
-                          sample_args=[1] + [0] * (width - 1) + [False]))
+        c = Cond(path, fn, '%s/count-guard/%d' % (shape.name, k),
+                 dict(shape=shape.name, check='array counter bounded', counter=k, symbolic='the %d counter bytes + byte order' % width),
+                 sample_args=[1] + [0] * (width - 1) + [False])
+        pats = [[0xFF] * width, [0x7F] + [0xFF] * (width - 1), [0xFF] * (width - 1) + [0x7F], [0] * (width - 1) + [0x80], [0x80] + [0] * (width - 1),
+                ([0, 0, 1] + [0] * width)[:width], ([1, 0, 1] + [0] * width)[:width]]
+        c.stub_samples = [p + [be] for p in pats for be in (False, True)]
+        conds.append(c)
         k += 1
     with open(path, 'w') as f:
         f.write(''.join(body))
